@@ -23,6 +23,13 @@ PROPS = {
         "assumptions": ["virtual clock (u64 microseconds, saturating Duration add); std::time clock covered by the separate std-clock probe (known finding F6)",
                         "packet counters below 2^64"],
     },
+    "C02": {
+        "sub": "fw",
+        "n": {"quick": 4000, "thorough": 300000},
+        "coq_sample": {"quick": 20, "thorough": 200},
+        "rule": FW_RULE % "a SendPadding action was returned by a machine that has a padding budget or fraction (scenario class: 1-4 padding machines with budgets 0..3 and fractions from {0,1e-9,1/3,0.5,0.75,1-1e-9,1} on machine and framework; single-event calls interleaving NormalSent, PaddingSent for own/other/unknown ids and all other events)",
+        "assumptions": ["fewer than 2^53 packets reported (exact u64->f64 conversion)"],
+    },
     "C04": {
         "sub": "fw",
         "n": {"quick": 3000, "thorough": 200000},
